@@ -22,6 +22,7 @@ pub mod c16;
 pub mod c17;
 pub mod c18;
 pub mod import_common;
+pub mod sanitizer_cases;
 pub mod c19;
 pub mod c20;
 
